@@ -45,7 +45,8 @@ def spec : Handler := fun j => do
   let ps := positionedNodes t'
   pure (Json.mkObj [("nodes", Json.arr (ps.map fun p => Json.arr #[strJ p.1, Json.num (p.2 : Nat)]).toArray),
     ("wf", Json.bool (treeOk t')),
-    ("wf_pipeline", Json.bool (wfStages6 (prep implCfg t) && treeOk (stage6 (prep implCfg t))))])
+    ("wf_pipeline", Json.bool (wfStages6 (prep implCfg t) && wfTweak (prep implCfg t) &&
+      treeOk (tweak [] (prep implCfg t))))])
 
 /-- `c01.whole`: the hand matcher of the `whole_span` pattern and its bindings. -/
 def whole : Handler := fun j => do
